@@ -148,6 +148,12 @@ func (x *Exec) harnessAPI(name string, args []Value) (Value, bool) {
 		}
 		x.stubOff[concStr(args[0])] = args[1].(Bool).C
 		return nil, true
+	case "vStubOn":
+		if x.stubOn == nil {
+			x.stubOn = map[string]bool{}
+		}
+		x.stubOn[modPath+"/"+concStr(args[0])] = true
+		return nil, true
 	case "vNote":
 		x.notes = append(x.notes, describeLabel(args[0]))
 		return nil, true
@@ -465,7 +471,7 @@ func (x *Exec) intrinsicNamed(fn *ssa.Function, path, name string, args []Value)
 			if x.branch(tt.Cmp(OpSlt, ci.S, tt.Const(64, 0))) {
 				panic(goPanic{msg: "strings: negative Repeat count", val: Iface{T: types.Typ[types.String], V: Str{S: "strings: negative Repeat count"}}, site: "strings.Repeat"})
 			}
-			if s.Len() > 0 && x.branch(tt.Cmp(OpSlt, tt.Const(64, uint64((1<<62)/s.Len())), ci.S)) {
+			if s.Len() > 0 && x.branch(tt.Cmp(OpSlt, tt.Const(64, uint64((1<<63-1)/s.Len())), ci.S)) {
 				panic(goPanic{msg: "strings: Repeat output length overflow", val: Iface{T: types.Typ[types.String], V: Str{S: "strings: Repeat output length overflow"}}, site: "strings.Repeat"})
 			}
 		}
@@ -473,7 +479,7 @@ func (x *Exec) intrinsicNamed(fn *ssa.Function, path, name string, args []Value)
 		if c < 0 {
 			panic(goPanic{msg: "strings: negative Repeat count", val: Iface{T: types.Typ[types.String], V: Str{S: "strings: negative Repeat count"}}, site: "strings.Repeat"})
 		}
-		if s.Len() > 0 && c > (1<<62)/s.Len() {
+		if s.Len() > 0 && c > (1<<63-1)/s.Len() {
 			panic(goPanic{msg: "strings: Repeat output length overflow", val: Iface{T: types.Typ[types.String], V: Str{S: "strings: Repeat output length overflow"}}, site: "strings.Repeat"})
 		}
 		if int64(c)*int64(s.Len()) > 1<<22 {
